@@ -124,6 +124,40 @@ func c13Run(c *mon.Ctx, unit int) {
 		if k == 2 && unit%4 == 0 {
 			s = &model.Schema{Root: gen.BigShape(r)}
 		}
+		var extra []*model.Val
+		switch {
+		case k == 3:
+			// a scalar with its rule set: the documents sit on, just inside and just outside every
+			// bound (where the order of a bound and its exclusive flag would show)
+			sc := gen.Scalar(r)
+			s = &model.Schema{Root: sc.Node, Enums: sc.Enums}
+			extra = sc.Probes
+			if len(extra) > 24 {
+				extra = extra[:24]
+			}
+		case k == 4 && unit%2 == 0:
+			// two key shortcuts whose key types overlap and whose values differ: a key that fits
+			// both belongs to the one declared first, wherever it stands in the document
+			s = &model.Schema{
+				Root: model.Obj(model.PShort("@aKey", model.Int("1")), model.PShort("@bKey", model.Str("s"))),
+				Types: []*model.TypeDef{
+					{Name: "@aKey", Root: model.Str("a1").With(model.RStr("regex", "^a"))},
+					{Name: "@bKey", Root: model.Str("xb").With(model.RStr("regex", "b$"))},
+				},
+			}
+			if r.Bool() {
+				s.Root.Props[0], s.Root.Props[1] = s.Root.Props[1], s.Root.Props[0]
+			}
+			for _, ms := range [][]model.Member{
+				{model.M("ab", model.VNumber("1")), model.M("xb", model.VString("s"))},
+				{model.M("xb", model.VString("s")), model.M("ab", model.VNumber("1"))},
+				{model.M("ab", model.VString("s")), model.M("xb", model.VString("s")), model.M("a1", model.VNumber("1"))},
+				{model.M("a1", model.VNumber("1")), model.M("xb", model.VString("s")), model.M("ab", model.VString("s"))},
+				{model.M("xb", model.VString("s")), model.M("a1", model.VNumber("1")), model.M("ab", model.VNumber("2"))},
+			} {
+				extra = append(extra, model.VObject(ms...))
+			}
+		}
 		s.OptKeys = r.Chance(1, 8)
 		if k%4 == 1 {
 			// false-valued rules, several on one node: inert whatever their order
@@ -156,6 +190,7 @@ func c13Run(c *mon.Ctx, unit int) {
 			}
 			vals = append(vals, v)
 		}
+		vals = append(vals, extra...)
 		baseVerdicts := make([]string, len(vals))
 		for j, v := range vals {
 			baseVerdicts[j] = base.validate(v.Text()).Verdict()
